@@ -2,6 +2,7 @@
 
 from __future__ import annotations
 
+import os
 import time
 from dataclasses import dataclass, field
 
@@ -374,7 +375,8 @@ def fuse(edges: list[LEdge], entries: dict[str, int], max_rounds: int = 2000) ->
         if not done:
             # backward: left movers into their (visible) predecessors
             for e1 in edges:
-                if e1.mover != "L" or e1.kind != "step" or e1.guard != ("c", 1) or e1.src in entry_nodes:
+                # (an invisible edge still present here has no successor - the forward pass takes all others -: a thread's last local steps)
+                if not (e1.mover == "L" or not e1.visible) or e1.kind != "step" or e1.guard != ("c", 1) or e1.src in entry_nodes:
                     continue
                 if len(by_src.get((e1.thread, e1.src), [])) != 1:
                     continue
@@ -469,7 +471,7 @@ OBSERVED_PREFIXES = ("G.", "pc.", "uncaught.", "active.", "model_error", "F.Chan
 
 
 class TS:
-    def __init__(self, model: Model, comp, prefix=None):
+    def __init__(self, model: Model, comp, prefix=None, setup=None):
         """prefix = (thread name, predicate(state) -> bool): that thread is run alone, concretely, until the predicate
         holds; the state reached becomes the initial state (set-up code such as serve()'s initialisation)."""
         comp.finalize_classes() if not getattr(comp, "_finalized", False) else None
@@ -487,6 +489,8 @@ class TS:
         self.prefix_order, self.prefix_thread = [], None
         if prefix:
             self._run_prefix(*prefix)
+        if setup:
+            self._run_setup(setup)
         self._stabilise()
         self.edges = fuse(self.raw_edges, self.entry)
         self.by_thread = {t: [e for e in self.edges if e.thread == t] for t in self.threads}
@@ -518,6 +522,28 @@ class TS:
         self.entry = dict(self.entry)
         self.entry[thread] = st[f"pc.{thread}"]
 
+    def _run_setup(self, thread, limit=20000):
+        """the set-up thread (object construction) runs alone and to its end before any other thread exists: executed
+        concretely; the state it leaves is the initial state of the analysis (and of the stability/constant analysis)"""
+        self.by_thread = {t: [e for e in self.raw_edges if e.thread == t] for t in self.threads}
+        st = self.init_state()
+        for _ in range(limit):
+            if st[f"pc.{thread}"] == self.end[thread]:
+                break
+            en = [e for e in self.enabled(st) if e.thread == thread]
+            if not en:
+                raise Unsupported(f"setup thread {thread} is stuck")
+            st = self.step(st, en[0])
+        else:
+            raise Unsupported("setup does not terminate")
+        if st[self.model.errors_var]:
+            raise Unsupported("model error during setup")
+        for v, x in st.items():
+            if not v.startswith("pc."):
+                self.vars[v] = x
+        self.entry = dict(self.entry)
+        self.entry[thread] = self.end[thread]
+
     def _stabilise(self):
         """Accesses that cannot race: a load is invisible when no edge reachable from the initial control locations
         writes what it reads; a store is invisible when nothing reachable (and no query) ever reads what it writes."""
@@ -535,6 +561,10 @@ class TS:
                         seen.add(e.dst)
                         stack.append(e.dst)
         self.raw_edges = reach
+        self.const_vars = {}
+        if os.environ.get("VERIF_E2_CONSTPROP", "1") != "0":
+            reach = self._constprop(reach)
+            self.raw_edges = reach
         written, read = set(), set()
         per_edge = {}
         for e in reach:
@@ -568,6 +598,61 @@ class TS:
                 self.dead_stores += 1
             else:
                 self.stable_loads += 1
+
+    def _constprop(self, reach):
+        """Variables that no reachable edge writes keep their initial value (the state after the set-up prefix): reads of
+        them become constants, selects over them collapse, stores that became identities disappear, edges whose guard became
+        false are dropped.  A thread-local variable whose every store assigns one and the same constant is that constant
+        wherever it is read (Python reads a local only after a store to it).  Iterated to a fixpoint."""
+        for _ in range(20):
+            written = {}
+            for e in reach:
+                for v, x in e.updates.items():
+                    written.setdefault(v, []).append(x)
+            env = {}
+            allvars = set(self.vars)
+            for v in allvars:
+                if v.startswith("pc.") or v.startswith(OBSERVED_PREFIXES):
+                    continue
+                if v not in written:
+                    env[v] = ("c", self.vars[v])
+                elif v.startswith("L.") and all(x[0] == "c" and x == written[v][0] for x in written[v]):
+                    env[v] = written[v][0]
+            env = {v: c for v, c in env.items() if self.const_vars.get(v) != c}
+            if not env:
+                break
+            self.const_vars.update(env)
+            out = []
+            for e in reach:
+                g = simplify(subst(e.guard, env))
+                if g == ("c", 0):
+                    continue
+                ups = {}
+                for v, x in e.updates.items():
+                    x2 = simplify(subst(x, env))
+                    if x2 == ("v", v):
+                        continue
+                    if v in env and x2 == env[v]:
+                        continue      # a store of the constant the variable always holds
+                    ups[v] = x2
+                e.guard, e.updates = g, ups
+                out.append(e)
+            # control-flow reachability again (dropped edges)
+            by_src = {}
+            for e in out:
+                by_src.setdefault((e.thread, e.src), []).append(e)
+            keep = []
+            for t in self.threads:
+                seen, stack = {self.entry[t]}, [self.entry[t]]
+                while stack:
+                    n = stack.pop()
+                    for e in by_src.get((t, n), []):
+                        keep.append(e)
+                        if e.dst not in seen:
+                            seen.add(e.dst)
+                            stack.append(e.dst)
+            reach = keep
+        return reach
 
     # ---------------- simulation
     def init_state(self):
@@ -656,7 +741,81 @@ class Encoding:
             if k < K and any(e.src == ts.entry[t] and e.info and e.info[-1][2] == "begin" and len(e.info) == 1 for e in ts.by_thread[t]):
                 self.cons.append(self.choice[k] == ti)
                 k += 1
+        self.nbegin = k
         self.build_s = time.time() - t0
+
+    # ---------------- partial-order reduction (peephole form)
+    def por(self):
+        """Constraints that keep, of every class of schedules differing only in the order of *adjacent independent* steps of
+        different threads, the representatives without an inversion: a step of thread a directly followed by an independent
+        step of a thread b < a is excluded.  Two steps are independent when neither writes a variable the other reads or writes
+        (guards included, so neither enables/disables the other) and at most one of them writes an observed variable (harness
+        globals, uncaught/closed markers: their write order - hence every intermediate valuation the bad conditions look at -
+        is the same in all equivalent schedules).  Timeout steps (enabled only when no other step is) and the fixed leading
+        'thread begins' steps are never reordered.  Every reachable final state, and every sequence of observed valuations,
+        keeps a representative (sort by adjacent swaps), so sat/unsat of the queries is unchanged.  Not to be combined with the
+        replay disciplines (those sets of schedules are not closed under the swaps)."""
+        if getattr(self, "_por", None) is not None:
+            return self._por
+        ts = self.ts
+        rw = {}
+        for e in ts.edges:
+            R: set = set()
+            expr_vars(e.guard, R)
+            for x in e.updates.values():
+                expr_vars(x, R)
+            W = set(e.updates)
+            R.add(f"pc.{e.thread}")
+            W.add(f"pc.{e.thread}")
+            if ts.model.threads[e.thread]["dynamic"]:
+                R.add(f"active.{e.thread}")
+            obs = any(w.startswith(OBSERVED_PREFIXES) and not w.startswith("pc.") for w in e.updates)
+            rw[id(e)] = (R, W, obs)
+
+        def indep(e1, e2):
+            if e1.kind != "step" or e2.kind != "step":
+                return False
+            R1, W1, o1 = rw[id(e1)]
+            R2, W2, o2 = rw[id(e2)]
+            if o1 and o2:
+                return False
+            return not (W1 & R2 or W1 & W2 or W2 & R1)
+
+        tix = {t: i for i, t in enumerate(ts.threads)}
+        table = {}   # id(e1) -> {thread b: ("all",) | list of independent edges of b}
+        for e1 in ts.edges:
+            if e1.kind != "step":
+                continue
+            per = {}
+            for b in ts.threads:
+                if tix[b] >= tix[e1.thread]:
+                    continue
+                eb = ts.by_thread[b]
+                ind = [e2 for e2 in eb if indep(e1, e2)]
+                if ind:
+                    per[b] = ("all",) if len(ind) == len(eb) else ind
+            if per:
+                table[id(e1)] = per
+        cons = []
+        pairs = 0
+        for i in range(self.nbegin, self.K - 1):
+            f0 = {id(e): f for e, f in self.fired[i]}
+            f1 = {id(e): f for e, f in self.fired[i + 1]}
+            for e1 in ts.edges:
+                per = table.get(id(e1))
+                if not per:
+                    continue
+                alts = []
+                for b, ind in per.items():
+                    if ind == ("all",):
+                        alts.append(self.choice[i + 1] == tix[b])
+                    else:
+                        alts += [f1[id(e2)] for e2 in ind]
+                    pairs += 1
+                cons.append(z3.Not(z3.And(f0[id(e1)], z3.Or(alts))))
+        self._por = cons
+        self.por_pairs = sum(len(v) for v in table.values())
+        return cons
 
     def zx(self, e, st, nd):
         k = e[0]
